@@ -331,6 +331,7 @@ func rulesC12(w *World, r *Report) {
 	if bad3 == 0 {
 		r.add("C12.R3 no goroutines started by the library", "census", "-", true, fmt.Sprintf("%d instructions scanned: no go statement", n3))
 	}
+	include(w, r, "C17")
 }
 
 func uniq(s []string) []string {
@@ -592,6 +593,7 @@ func rulesC11(w *World, r *Report) {
 	w.ruleEncoderNoSetters(r, "C11.R4 inputs are not written")
 	// R5 fresh output
 	w.ruleFreshOutput(r, "C11.R5 Encode returns a buffer allocated in the call")
+	include(w, r, "C12")
 }
 
 // resetReinits: Reset of `owner` stores a fresh allocation into field fname
